@@ -102,3 +102,5 @@ func ZZ_C09Bulk(shape int) {
 	}
 	verifhook.Canary()
 }
+
+func verifhookCtx() context.Context { return context.Background() }
